@@ -41,9 +41,16 @@ func genConfig(t *rapid.T) *pb.ApiConfig {
 		}
 	}
 	n := rapid.IntRange(0, 6).Draw(t, "nmethods")
+	many := rapid.IntRange(0, 39).Draw(t, "manymethods") == 0
+	if many {
+		n = rapid.IntRange(30, 120).Draw(t, "nmethodsmany")
+	}
 	for i := 0; i < n; i++ {
 		mc := &pb.MethodConfig{}
 		k := rapid.IntRange(0, 3).Draw(t, "nnames")
+		if many && i == 0 {
+			k = rapid.IntRange(20, 70).Draw(t, "nnamesmany")
+		}
 		for j := 0; j < k; j++ {
 			mc.Name = append(mc.Name, rapid.SampledFrom(methodNames).Draw(t, "name"))
 		}
